@@ -1,9 +1,9 @@
 package main
 
 import (
-	"hash/crc32"
 	"fmt"
 	"github.com/brocaar/lorawan/backend"
+	"hash/crc32"
 
 	"github.com/brocaar/lorawan"
 )
